@@ -184,7 +184,7 @@ def run_model_vm(requests, expected, name, timeout=600):
 
 # ---------------------------------------------------------------- implementation runner
 
-def run_impl(worker, payload, hashseed=0, timeout=600, extra_env=None):
+def run_impl(worker, payload, hashseed=0, timeout=600, extra_env=None, cwd=None):
     """Run harness/workers/<worker>.py in a fresh interpreter against /repo/src. payload and result are JSON."""
     env = dict(os.environ)
     env['PYTHONPATH'] = os.path.join(REPO, 'src') + os.pathsep + os.path.join(VERIF, 'harness')
@@ -195,7 +195,7 @@ def run_impl(worker, payload, hashseed=0, timeout=600, extra_env=None):
         env.update(extra_env)
     proc = subprocess.run([PY, '-X', 'utf8', os.path.join(VERIF, 'harness', 'workers', worker + '.py')],
                           input=json.dumps(payload).encode(), stdout=subprocess.PIPE,
-                          stderr=subprocess.PIPE, timeout=timeout, env=env, cwd=os.path.join(VERIF, 'harness'))
+                          stderr=subprocess.PIPE, timeout=timeout, env=env, cwd=cwd or os.path.join(VERIF, 'harness'))
     if proc.returncode != 0:
         raise ImplCrash(worker, proc.returncode, proc.stderr.decode(errors='replace')[-2000:])
     return json.loads(proc.stdout.decode())
